@@ -91,9 +91,8 @@ def shard(rec, tier, index, n_shards):
     for text in shapes[index::n_shards]:
         target, tree = gen.parse(text)
         orders = gen.tensor_orders(target, tree)
-        for _ in range(plan["fmt"]):
-            formats = gen.random_formats(rng, orders)
-            for _ in range(plan["inp"]):
+        for k_, formats in enumerate(gen.format_plan(rng, orders, plan["fmt"])):
+            for _ in range(plan["inp"] * (4 if k_ == 0 else 1)):  # the all-compressed assignment gets more inputs
                 do(engine.build_case(rng, target, tree, formats, origin="curated"))
     if tier == "thorough":
         # bounded-exhaustive: every format assignment of every curated shape whose product is <= 20000,
